@@ -14,6 +14,8 @@ import Drv.BcDrv
 import Drv.BdDrv
 import Drv.DagDrv
 import Drv.RnDrv
+import Drv.RbwDrv
+import Drv.HbfDrv
 
 /-- `hvdriver <domain>`: runs the line-protocol loop of one model family on stdin -/
 def main (args : List String) : IO UInt32 := do
@@ -34,4 +36,6 @@ def main (args : List String) : IO UInt32 := do
   | "bd" :: rest => BdDrv.main rest; return 0
   | "dag" :: rest => DagDrv.main rest; return 0
   | ["rn"] => RnDrv.main; return 0
+  | ["rbw"] => RbwDrv.main; return 0
+  | ["hbf"] => HbfDrv.main; return 0
   | _ => IO.eprintln "usage: hvdriver fu [fixed]|rb|pl|ts|mg|tk|ln|cd|idn|gs|td|hb"; return 2
